@@ -82,7 +82,7 @@ func runC15(r *core.Run) {
 	c15NewPacketGuards(r)
 	c15TypedThroughBytes(r, "R15.14")
 	c15AddPacket(r)
-	c15SetPosition(r)
+	c15SetPosition(r, "R15.10")
 	c15ReadExact(r)
 	okF, whyF := bytesReturnsFresh(p)
 	r.Check(okF, "R15.9", "PacketQueue.Bytes returns a buffer of its own", p.Func("tds", "PacketQueue", "Bytes").Pos(), "make([]byte, n) allocated by the call", whyF)
@@ -538,7 +538,7 @@ func c15AddPacket(r *core.Run) {
 	r.Check(ok, "R15.8", "AddPacket only appends", fn.Pos(), "stores: queue = append(queue, packet); recvEOM", why)
 }
 
-func c15SetPosition(r *core.Run) {
+func c15SetPosition(r *core.Run, rule string) {
 	p := r.Prog
 	fn := p.Func("tds", "PacketQueue", "SetPosition")
 	fIdxP := p.Field("tds", "PacketQueue", "indexPacket")
@@ -574,7 +574,7 @@ func c15SetPosition(r *core.Run) {
 			ok, why = false, "SetPosition can return without restoring the given position (a conditional guard ignores some positions): restoring a position saved by Position() — e.g. the one just behind the last packet — silently does nothing and consumed bytes are read again"
 		}
 	})
-	r.Check(ok && nret > 0, "R15.10", "SetPosition stores both indices on every path", fn.Pos(), "indexPacket, indexData := parameters, unconditionally", why)
+	r.Check(ok && nret > 0, rule, "SetPosition stores both indices on every path", fn.Pos(), "indexPacket, indexData := parameters, unconditionally", why)
 }
 
 func c15ReadExact(r *core.Run) {
